@@ -16,13 +16,13 @@ template <typename T, typename T2> static inline void print_vec(const T& v, T2 f
 }
 
 static inline std::string hashtype_str(int h) {
-    char buf[100];
-    char* pbuf = buf;
-    if ((h & 0x1f) == SIGHASH_ALL) pbuf += snprintf(pbuf, 100 + buf - pbuf, " SIGHASH_ALL");
-    if ((h & 0x1f) == SIGHASH_NONE) pbuf += snprintf(pbuf, 100 + buf - pbuf, " SIGHASH_NONE");
-    if ((h & 0x1f) == SIGHASH_SINGLE) pbuf += snprintf(pbuf, 100 + buf - pbuf, " SIGHASH_SINGLE");
-    if (h & SIGHASH_ANYONECANPAY) pbuf += snprintf(pbuf, 100 + buf - pbuf, " SIGHASH_ANYONECANPAY");
-    return &buf[1];
+    // (a hash type outside the defined ones names nothing: the result is then empty, not whatever the stack held)
+    std::string s;
+    if ((h & 0x1f) == SIGHASH_ALL) s += " SIGHASH_ALL";
+    if ((h & 0x1f) == SIGHASH_NONE) s += " SIGHASH_NONE";
+    if ((h & 0x1f) == SIGHASH_SINGLE) s += " SIGHASH_SINGLE";
+    if (h & SIGHASH_ANYONECANPAY) s += " SIGHASH_ANYONECANPAY";
+    return s.empty() ? s : s.substr(1);
 }
 
 typedef std::vector<unsigned char> valtype;
